@@ -7,7 +7,7 @@ use raft::storage::{GetEntriesContext, RaftState, Storage};
 use raft::{Error, Result, StorageError};
 use serde::Serialize;
 
-use crate::view::{conf_view, entry_view, hs_view, ConfV, EntryV, HsV};
+use crate::view::{conf_view, entry_view, hs_view, snap_view, ConfV, EntryV, HsV};
 
 #[derive(Clone, Default, Debug)]
 pub struct StoreImage {
@@ -123,6 +123,8 @@ pub struct StoreView {
     pub ents: Vec<EntryV>,
     pub snapi: u64,
     pub snapt: u64,
+    pub snapconf: ConfV,
+    pub snapdata: String,
 }
 
 pub fn store_view(s: &StoreImage) -> StoreView {
@@ -134,6 +136,8 @@ pub fn store_view(s: &StoreImage) -> StoreView {
         ents: s.entries.iter().map(entry_view).collect(),
         snapi: s.snap.as_ref().map(|x| x.get_metadata().index).unwrap_or(0),
         snapt: s.snap.as_ref().map(|x| x.get_metadata().term).unwrap_or(0),
+        snapconf: s.snap.as_ref().map(|x| snap_view(x).conf).unwrap_or_default(),
+        snapdata: s.snap.as_ref().map(|x| snap_view(x).data).unwrap_or_default(),
     }
 }
 
